@@ -78,7 +78,7 @@ def _worker(pid, tier, jobs, timeout_s, want_samples):
         finally:
             _HISTORY.append((seed, faulty))
         d = {"seed": seed, "faulty": faulty, "digest": r.digest, "nsteps": r.nsteps, "stats": r.stats,
-             "probes": r.probes, "fired": r.fired, "fs_states": r.fs_states, "shape": r.shape,
+             "probes": r.probes, "fired": r.fired, "fs_states": r.fs_states, "shape": r.shape, "sets": r.sets,
              "nontrivial": r.nontrivial, "violation": r.violation, "prims": r.prims, "wall": r.wall}
         if r.violation:
             d["trace"] = r.trace
@@ -136,8 +136,11 @@ def write_evidence(pid, tier, base, results, wall, violations, known_hits, prop,
     from collections import Counter
     stats, probes, fired = Counter(), Counter(), Counter()
     fs_states, shapes, digests_nt = set(), set(), set()
+    named = {}
     steps = prims = 0
     for r in results:
+        for k, v in (r.get("sets") or {}).items():
+            named.setdefault(k, set()).update(v)
         stats.update(r["stats"])
         probes.update(r["probes"])
         fired.update(r["fired"])
@@ -182,6 +185,7 @@ def write_evidence(pid, tier, base, results, wall, violations, known_hits, prop,
             "other_stats": {k: v for k, v in sorted(stats.items()) if k not in (
                 "api_calls", "acks", "oracle_evals", "restarts", "crashes", "faulted_calls")},
             "distinct_fs_states": len(fs_states),
+            "distinct_reached": {k: len(v) for k, v in sorted(named.items())},
             "distinct_op_shapes": len(shapes),
             "known_findings_hit": known_hits,
             "components": getattr(prop, "COMPONENTS", {
@@ -322,6 +326,13 @@ def cmd_check(args):
     print("runs=%d nontrivial_distinct=%d steps=%d api_calls=%d acks=%d oracle=%d faults=%s wall=%.1fs runs/h=%d" % (
         c["evaluations"], c["distinct_nontrivial"], c["steps_total"], c["api_calls"], c["acknowledged_writes"],
         c["oracle_evaluations"], sum(c["faults_fired"].values()), wall, c["runs_per_hour"]))
+    if tier == "thorough" and rc == 0:
+        need = getattr(prop, "MUST_REACH", {})
+        dead = [k for k in need.get("probes", []) if not c["probe_hits"].get(k)] + \
+               [k for k in need.get("faults", []) if not c["faults_fired"].get(k)]
+        if dead:
+            print("HARNESS-ERROR: the workload no longer reaches %s (probe/fault counters stuck at 0 in the thorough tier)" % dead)
+            return 2
     if tier == "thorough" and rc == 0 and not args.no_selftest:
         rc = max(rc, cmd_selftest(args, n=40))
     return rc
